@@ -31,6 +31,435 @@ def txt(e):
 _READONLY_METHODS = {"get", "items", "keys", "values", "copy", "index", "count"}
 
 
+# ---------------------------------------------------------------------------
+# the checker's own evaluator of pure constant expressions (derived constants)
+
+
+class NotPure(Exception):
+    """the expression is outside the vocabulary of pure_value"""
+
+
+_PURE_SCALARS = (bool, int, str, bytes, type(None))
+_PURE_LIMIT = 4096  # elements of any computed collection
+
+
+class _Lazy:
+    """a one-shot iterator (generator expression, zip, enumerate, reversed,
+    map-like): it can be consumed by one iteration, and is nothing else -- not a
+    sequence, not a constant a name could stand for"""
+
+    def __init__(self, items):
+        self.items = items
+
+
+def _pure_ok(v):
+    if isinstance(v, _Lazy):
+        if len(v.items) > _PURE_LIMIT:
+            raise NotPure("too large")
+        return v
+    if isinstance(v, (tuple, list, frozenset)):
+        if len(v) > _PURE_LIMIT:
+            raise NotPure("too large")
+        return v
+    if isinstance(v, dict):
+        if len(v) > _PURE_LIMIT:
+            raise NotPure("too large")
+        return v
+    if isinstance(v, _PURE_SCALARS):
+        if isinstance(v, int) and not isinstance(v, bool) and abs(v) > 1 << 256:
+            raise NotPure("too large")
+        if isinstance(v, (str, bytes)) and len(v) > _PURE_LIMIT:
+            raise NotPure("too large")
+        return v
+    raise NotPure("value kind")
+
+
+def _pure_binop(op, a, b):
+    num = lambda x: isinstance(x, int)
+    seq = lambda x: isinstance(x, (tuple, list, str, bytes))
+    if isinstance(op, ast.Add) and ((num(a) and num(b)) or (seq(a) and type(a) is type(b))):
+        return a + b
+    if isinstance(op, ast.Sub) and num(a) and num(b):
+        return a - b
+    if isinstance(op, ast.Mult) and num(a) and num(b):
+        return a * b
+    if isinstance(op, ast.Mult) and ((seq(a) and num(b)) or (num(a) and seq(b))):
+        n = b if num(b) else a
+        if n > _PURE_LIMIT:
+            raise NotPure("too large")
+        return a * b
+    if isinstance(op, (ast.FloorDiv, ast.Mod)) and num(a) and num(b) and b != 0:
+        return a // b if isinstance(op, ast.FloorDiv) else a % b
+    if isinstance(op, ast.Pow) and num(a) and num(b) and 0 <= b <= 256 and abs(a) <= 1 << 16:
+        return a ** b
+    if isinstance(op, ast.LShift) and num(a) and num(b) and 0 <= b <= 256:
+        return a << b
+    if isinstance(op, ast.RShift) and num(a) and num(b) and 0 <= b <= 4096:
+        return a >> b
+    if isinstance(op, ast.BitOr) and num(a) and num(b):
+        return a | b
+    if isinstance(op, ast.BitAnd) and num(a) and num(b):
+        return a & b
+    if isinstance(op, ast.BitXor) and num(a) and num(b):
+        return a ^ b
+    raise NotPure("operator")
+
+
+def _pure_compare(op, a, b):
+    if isinstance(op, (ast.Eq, ast.NotEq)):
+        return (a == b) if isinstance(op, ast.Eq) else (a != b)
+    if isinstance(op, (ast.Is, ast.IsNot)):
+        if a is None or b is None:
+            return ((a is None) and (b is None)) == isinstance(op, ast.Is)
+        raise NotPure("identity of values")
+    if isinstance(op, (ast.In, ast.NotIn)):
+        if isinstance(b, (tuple, list, frozenset, dict)) or (isinstance(b, (str, bytes)) and type(a) is type(b)):
+            try:
+                r = a in b
+            except TypeError:
+                raise NotPure("unhashable")
+            return r == isinstance(op, ast.In)
+        raise NotPure("membership")
+    ordered = (isinstance(a, int) and isinstance(b, int)) or (type(a) is type(b) and isinstance(a, (str, bytes, tuple, list)))
+    if not ordered:
+        raise NotPure("ordering")
+    try:
+        if isinstance(op, ast.Lt):
+            return a < b
+        if isinstance(op, ast.LtE):
+            return a <= b
+        if isinstance(op, ast.Gt):
+            return a > b
+        if isinstance(op, ast.GtE):
+            return a >= b
+    except TypeError:
+        raise NotPure("ordering")
+    raise NotPure("comparison")
+
+
+def _pure_bind(target, v, env):
+    if isinstance(target, ast.Name):
+        env[target.id] = v
+        return
+    if isinstance(target, (ast.Tuple, ast.List)) and not any(isinstance(t, ast.Starred) for t in target.elts):
+        if not isinstance(v, (tuple, list)) or len(v) != len(target.elts):
+            raise NotPure("unpacking")
+        for t, x in zip(target.elts, v):
+            _pure_bind(t, x, env)
+        return
+    raise NotPure("target")
+
+
+def _pure_iter(v):
+    """the elements iteration over v yields, in order (frozenset: no defined order)"""
+    if isinstance(v, _Lazy):
+        return list(v.items)
+    if isinstance(v, (tuple, list)):
+        return list(v)
+    if isinstance(v, dict):
+        return list(v)  # insertion order
+    if isinstance(v, (str, bytes)):
+        return [v[i:i + 1] if isinstance(v, str) else v[i] for i in range(len(v))]
+    raise NotPure("iteration order")
+
+
+def pure_value(e, env, lookup):
+    """Python value of the expression `e`: literals, names bound in env (the
+    targets of enclosing comprehensions) or resolved by lookup(name) to the
+    literal of an immutable module constant, arithmetic / comparisons / boolean
+    operators / conditional expressions / subscripts and slices over such
+    values, comprehensions and generator expressions, and calls of the built-in
+    pure functions tuple list sorted reversed dict len min max sum range
+    enumerate zip abs frozenset set bytes int bool and of .items() .keys() .values()
+    .get() on dict values.  Everything computes exactly what Python computes on
+    these value kinds (ints, bools, str, bytes, None, tuples, lists, dicts in
+    insertion order, frozensets without iteration order); anything else raises
+    NotPure.  A builtin name that lookup() resolves, or that is bound in env,
+    is not the builtin."""
+    def ev(x, env):
+        return _pure_ok(ev1(x, env))
+
+    def builtin(name, env):
+        return name not in env and lookup(name) is None and not lookup_bound(name)
+
+    def lookup_bound(name):
+        b = getattr(lookup, "bound", None)
+        return b(name) if b is not None else False
+
+    def comp(gens, env, emit):
+        if not gens:
+            emit(env)
+            return
+        g = gens[0]
+        if g.is_async:
+            raise NotPure("async comprehension")
+        for x in _pure_iter(ev(g.iter, env)):
+            env2 = dict(env)
+            _pure_bind(g.target, x, env2)
+            if all(truth(ev(c, env2)) for c in g.ifs):
+                comp(gens[1:], env2, emit)
+
+    def truth(v):
+        return True if isinstance(v, _Lazy) else bool(v)
+
+    def ev1(x, env):
+        if isinstance(x, ast.Constant):
+            if isinstance(x.value, _PURE_SCALARS):
+                return x.value
+            raise NotPure("constant kind")
+        if isinstance(x, ast.Name):
+            if x.id in env:
+                return env[x.id]
+            c = lookup(x.id)
+            if c is None:
+                raise NotPure("free name %s" % x.id)
+            return pure_value(c, {}, lookup)
+        if isinstance(x, (ast.Tuple, ast.List)):
+            out = []
+            for y in x.elts:
+                if isinstance(y, ast.Starred):
+                    out.extend(_pure_iter(ev(y.value, env)))
+                else:
+                    out.append(ev(y, env))
+            return tuple(out) if isinstance(x, ast.Tuple) else out
+        if isinstance(x, ast.Set):
+            if any(isinstance(y, ast.Starred) for y in x.elts):
+                raise NotPure("starred set element")
+            try:
+                return frozenset([ev(y, env) for y in x.elts])
+            except TypeError:
+                raise NotPure("unhashable")
+        if isinstance(x, ast.Dict):
+            d = {}
+            for k, v in zip(x.keys, x.values):
+                try:
+                    if k is None:
+                        inner = ev(v, env)
+                        if not isinstance(inner, dict):
+                            raise NotPure("** of a non-dict")
+                        d.update(inner)
+                    else:
+                        d[ev(k, env)] = ev(v, env)
+                except TypeError:
+                    raise NotPure("unhashable")
+            return d
+        if isinstance(x, ast.UnaryOp):
+            v = ev(x.operand, env)
+            if isinstance(x.op, ast.Not):
+                return not truth(v)
+            if isinstance(v, int):
+                if isinstance(x.op, ast.USub):
+                    return -v
+                if isinstance(x.op, ast.UAdd):
+                    return +v
+                if isinstance(x.op, ast.Invert):
+                    return ~v
+            raise NotPure("unary")
+        if isinstance(x, ast.BinOp):
+            return _pure_binop(x.op, ev(x.left, env), ev(x.right, env))
+        if isinstance(x, ast.BoolOp):
+            v = None
+            for y in x.values:
+                v = ev(y, env)
+                if truth(v) != isinstance(x.op, ast.And):
+                    return v
+            return v
+        if isinstance(x, ast.Compare):
+            left = ev(x.left, env)
+            for op, r in zip(x.ops, x.comparators):
+                right = ev(r, env)
+                if not _pure_compare(op, left, right):
+                    return False
+                left = right
+            return True
+        if isinstance(x, ast.IfExp):
+            return ev(x.body if truth(ev(x.test, env)) else x.orelse, env)
+        if isinstance(x, ast.Subscript):
+            c = ev(x.value, env)
+            if isinstance(x.slice, ast.Slice):
+                if not isinstance(c, (tuple, list, str, bytes)):
+                    raise NotPure("slice")
+                parts = [None if p is None else ev(p, env) for p in (x.slice.lower, x.slice.upper, x.slice.step)]
+                if any(p is not None and not isinstance(p, int) for p in parts) or parts[2] == 0:
+                    raise NotPure("slice")
+                return c[slice(*parts)]
+            i = ev(x.slice, env)
+            if isinstance(c, dict):
+                try:
+                    if i in c:
+                        return c[i]
+                except TypeError:
+                    pass
+                raise NotPure("key")
+            if isinstance(c, (tuple, list, str, bytes)) and isinstance(i, int) and -len(c) <= i < len(c):
+                return c[i]
+            raise NotPure("subscript")
+        if isinstance(x, (ast.ListComp, ast.SetComp, ast.GeneratorExp)):
+            out = []
+            comp(x.generators, env, lambda e2: out.append(ev(x.elt, e2)))
+            if isinstance(x, ast.SetComp):
+                try:
+                    return frozenset(out)
+                except TypeError:
+                    raise NotPure("unhashable")
+            # a generator expression is a one-shot iterator: accepted only where
+            # it is consumed at once (by a pure builtin or a comprehension)
+            return _Lazy(out) if isinstance(x, ast.GeneratorExp) else out
+        if isinstance(x, ast.DictComp):
+            d = {}
+
+            def put(e2):
+                try:
+                    d[ev(x.key, e2)] = ev(x.value, e2)
+                except TypeError:
+                    raise NotPure("unhashable")
+
+            comp(x.generators, env, put)
+            return d
+        if isinstance(x, ast.Call):
+            if any(isinstance(a, ast.Starred) for a in x.args) or any(k.arg is None for k in x.keywords):
+                raise NotPure("star arguments")
+            f = x.func
+            if isinstance(f, ast.Attribute):
+                recv = ev(f.value, env)
+                args = [ev(a, env) for a in x.args]
+                if x.keywords:
+                    raise NotPure("keywords of a method")
+                if isinstance(recv, dict):
+                    if f.attr == "items" and not args:
+                        return [(k, v) for k, v in recv.items()]
+                    if f.attr == "keys" and not args:
+                        return list(recv)
+                    if f.attr == "values" and not args:
+                        return list(recv.values())
+                    if f.attr == "get" and 1 <= len(args) <= 2:
+                        try:
+                            return recv.get(*args)
+                        except TypeError:
+                            raise NotPure("unhashable")
+                if isinstance(recv, (tuple, list)) and f.attr in ("index", "count") and len(args) == 1:
+                    try:
+                        return getattr(recv, f.attr)(args[0])
+                    except ValueError:
+                        raise NotPure("index")
+                raise NotPure("method %s" % f.attr)
+            if not isinstance(f, ast.Name) or not builtin(f.id, env):
+                raise NotPure("callee")
+            name = f.id
+            args = [ev(a, env) for a in x.args]
+            kw = {k.arg: ev(k.value, env) for k in x.keywords}
+            if name in ("tuple", "list") and len(args) <= 1 and not kw:
+                seq = _pure_iter(args[0]) if args else []
+                return tuple(seq) if name == "tuple" else seq
+            if name in ("frozenset", "set") and len(args) <= 1 and not kw:
+                try:
+                    return frozenset(_pure_iter(args[0]) if args else ())
+                except TypeError:
+                    raise NotPure("unhashable")
+            if name == "sorted" and len(args) == 1 and set(kw) <= {"reverse"}:
+                src = list(args[0]) if isinstance(args[0], frozenset) else _pure_iter(args[0])
+                rev = kw.get("reverse", False)
+                if not isinstance(rev, (bool, int)):
+                    raise NotPure("reverse")
+                # a total order on the elements is needed: all ints, or all of one
+                # ordered kind (compared by _pure_compare's rules, recursively)
+                def orderable(a, b):
+                    if isinstance(a, int) and isinstance(b, int):
+                        return True
+                    if type(a) is not type(b):
+                        return False
+                    if isinstance(a, (str, bytes)):
+                        return True
+                    if isinstance(a, (tuple, list)):
+                        return all(orderable(p, q) for p, q in zip(a, b))
+                    return False
+                if any(not orderable(src[0], y) for y in src[1:]) or (len(src) == 1 and False):
+                    raise NotPure("ordering")
+                try:
+                    return sorted(src, reverse=bool(rev))
+                except TypeError:
+                    raise NotPure("ordering")
+            if name == "reversed" and len(args) == 1 and not kw and isinstance(args[0], (tuple, list, str, bytes)):
+                return _Lazy(_pure_iter(args[0])[::-1])
+            if name == "reversed" and len(args) == 1 and not kw and isinstance(args[0], dict):
+                return _Lazy(list(args[0])[::-1])
+            if name == "dict" and len(args) <= 1:
+                d = {}
+                try:
+                    if args:
+                        if isinstance(args[0], dict):
+                            d.update(args[0])
+                        else:
+                            for pair in _pure_iter(args[0]):
+                                if not isinstance(pair, (tuple, list)) or len(pair) != 2:
+                                    raise NotPure("dict() of non-pairs")
+                                d[pair[0]] = pair[1]
+                    d.update(kw)
+                except TypeError:
+                    raise NotPure("unhashable")
+                return d
+            if name == "len" and len(args) == 1 and not kw and isinstance(args[0], (tuple, list, dict, frozenset, str, bytes)):
+                return len(args[0])
+            if name in ("min", "max") and args and not kw:
+                src = (list(args[0]) if isinstance(args[0], frozenset) else _pure_iter(args[0])) if len(args) == 1 else args
+                if not src or not all(isinstance(y, int) for y in src):
+                    raise NotPure("min/max of non-ints")
+                return min(src) if name == "min" else max(src)
+            if name == "sum" and len(args) == 1 and not kw:
+                src = list(args[0]) if isinstance(args[0], frozenset) else _pure_iter(args[0])
+                if not all(isinstance(y, int) for y in src):
+                    raise NotPure("sum of non-ints")
+                return sum(src)
+            if name == "abs" and len(args) == 1 and not kw and isinstance(args[0], int):
+                return abs(args[0])
+            if name == "range" and 1 <= len(args) <= 3 and not kw and all(isinstance(a, int) for a in args) and (len(args) < 3 or args[2] != 0):
+                r = range(*args)
+                if len(r) > _PURE_LIMIT:
+                    raise NotPure("too large")
+                return list(r)
+            if name == "enumerate" and 1 <= len(args) <= 2 and set(kw) <= {"start"}:
+                start = args[1] if len(args) == 2 else kw.get("start", 0)
+                if not isinstance(start, int) or (len(args) == 2 and kw):
+                    raise NotPure("enumerate")
+                return _Lazy([(start + i, y) for i, y in enumerate(_pure_iter(args[0]))])
+            if name == "zip" and not kw:
+                return _Lazy([tuple(t) for t in zip(*[_pure_iter(a) for a in args])])
+            if name == "bool" and len(args) <= 1 and not kw:
+                return bool(args[0]) if args else False
+            if name == "int" and len(args) == 1 and not kw and isinstance(args[0], int):
+                return int(args[0])
+            if name == "bytes" and len(args) == 1 and not kw and isinstance(args[0], (tuple, list)) and all(isinstance(y, int) and not isinstance(y, bool) and 0 <= y < 256 for y in args[0]):
+                return bytes(args[0])
+            raise NotPure("call of %s" % name)
+        raise NotPure("expression kind %s" % type(x).__name__)
+
+    try:
+        return ev(e, dict(env))
+    except RecursionError:
+        raise NotPure("recursion")
+
+
+def literal_of(v):
+    """literal expression of a value computed by pure_value (None for a value
+    that has no literal the evaluators track: sets)"""
+    if isinstance(v, _PURE_SCALARS):
+        if isinstance(v, int) and not isinstance(v, bool) and v < 0:
+            return ast.UnaryOp(op=ast.USub(), operand=ast.Constant(value=-v))
+        return ast.Constant(value=v)
+    if isinstance(v, (tuple, list)):
+        elts = [literal_of(x) for x in v]
+        if any(x is None for x in elts):
+            return None
+        return (ast.Tuple if isinstance(v, tuple) else ast.List)(elts=elts, ctx=ast.Load())
+    if isinstance(v, dict):
+        ks = [literal_of(k) for k in v]
+        vs = [literal_of(x) for x in v.values()]
+        if any(x is None for x in ks + vs):
+            return None
+        return ast.Dict(keys=ks, values=vs)
+    return None
+
+
 def module_const(prog, module, name):
     """Value expression of a module-level name of `module` (a model.Module)
     that is bound exactly once, at module level, to a literal, and is never
@@ -52,7 +481,45 @@ def module_const(prog, module, name):
         elif isinstance(st, ast.AnnAssign) and isinstance(st.target, ast.Name) and st.target.id == name:
             binds += 1
             value = st.value
-    ok = binds == 1 and value is not None and isinstance(value, (ast.Dict, ast.Tuple, ast.List, ast.Constant))
+    ok = binds == 1 and value is not None
+    if ok and not isinstance(value, (ast.Dict, ast.Tuple, ast.List, ast.Constant)):
+        # a *derived* constant: a pure expression over literals and other
+        # immutable constants of the module (`tuple(sorted(T.items(), reverse=True))`,
+        # a comprehension over a table, `A + B`, ...).  It is evaluated once, at
+        # import, so its value is the value of that expression over the
+        # constants as they are bound; the checker computes it with its own
+        # evaluator (pure_value) and continues with the literal of the result.
+        # The placeholder keeps a cyclic definition from recursing.
+        cache[name] = None
+        def lookup(nm):
+            return module_const(prog, module, nm)
+
+        # a name the module binds itself (def, class, import, assignment at
+        # module level) is not the builtin of that name
+        scope = set()
+        todo = list(module.tree.body)
+        while todo:
+            n = todo.pop()
+            if isinstance(n, (ast.FunctionDef, ast.AsyncFunctionDef, ast.ClassDef)):
+                scope.add(n.name)
+                continue
+            if isinstance(n, (ast.Import, ast.ImportFrom)):
+                for a in n.names:
+                    scope.add((a.asname or a.name).split(".")[0])
+                    if a.name == "*":
+                        scope.add("*")
+            if isinstance(n, ast.Name) and isinstance(n.ctx, (ast.Store, ast.Del)):
+                scope.add(n.id)
+            if isinstance(n, (ast.Lambda, ast.ListComp, ast.SetComp, ast.DictComp, ast.GeneratorExp)):
+                continue
+            todo.extend(ast.iter_child_nodes(n))
+        lookup.bound = lambda nm: nm in scope or "*" in scope
+        try:
+            value = literal_of(pure_value(value, {}, lookup))
+        except NotPure:
+            value = None
+        del cache[name]
+        ok = value is not None
     if ok:
         for n in ast.walk(module.tree):
             if isinstance(n, ast.Global) and name in n.names:
@@ -245,6 +712,24 @@ def fold(e, hook=None, consts=None):
                 # identity with the singleton None is decided by the values
                 same = n.left.value is None and n.comparators[0].value is None
                 return ast.Constant(value=same if isinstance(n.ops[0], ast.Is) else not same)
+            if isinstance(n, ast.Compare) and len(n.ops) == 1 and isinstance(n.ops[0], (ast.Is, ast.IsNot)) \
+                    and any(isinstance(x, ast.Constant) and x.value is None for x in (n.left, n.comparators[0])) \
+                    and any(isinstance(x, (ast.Tuple, ast.List, ast.Dict, ast.Set)) and isinstance(getattr(x, "ctx", ast.Load()), ast.Load) for x in (n.left, n.comparators[0])):
+                # a display evaluates to a container object, which is never None
+                return ast.Constant(value=isinstance(n.ops[0], ast.IsNot))
+            if isinstance(n, ast.Compare) and len(n.ops) == 1 and isinstance(n.ops[0], (ast.In, ast.NotIn)):
+                # c in {k1: .., k2: ..} / (x1, x2, ..) / {x1, x2}  for constant c and
+                # constant keys / elements: decided by the values (== on ints,
+                # strings, bytes, None, as `in` does)
+                okc, cv = _cval(n.left)
+                box = n.comparators[0]
+                c = box if isinstance(box, ast.Set) else const_container(box)
+                if okc and c is not None and isinstance(cv, (int, str, bytes, type(None))):
+                    members = c.keys if isinstance(c, ast.Dict) else c.elts
+                    vals = [(_cval(m) if m is not None and not isinstance(m, ast.Starred) else (False, None)) for m in members]
+                    if all(ok2 and isinstance(v2, (int, str, bytes, type(None))) for ok2, v2 in vals):
+                        found = any(v2 == cv for _ok2, v2 in vals)
+                        return ast.Constant(value=found if isinstance(n.ops[0], ast.In) else not found)
             if isinstance(n, (ast.BinOp, ast.UnaryOp, ast.Compare, ast.BoolOp)):
                 try:
                     v = norm.consteval(n)
@@ -539,7 +1024,18 @@ def enumerate_paths(fnode, hook=None, what="function", max_paths=96, consts=None
                 return None
             if all(isinstance(x, int) for x in a) and len(range(*a)) <= MAX_UNROLL:
                 return [ast.Constant(value=i) for i in range(*a)]
-        return None
+        # any other pure expression over literals and immutable module constants
+        # (`sorted(T.items(), reverse=True)`, `zip(A, B)`, `enumerate(T, 13)`, a
+        # comprehension over a table, `A + B`): the checker's own evaluator
+        # computes the sequence of elements the loop sees, in order
+        try:
+            v = pure_value(e, {}, consts if consts is not None else (lambda nm: None))
+            elts = [literal_of(x) for x in _pure_iter(v)]
+        except NotPure:
+            return None
+        if any(x is None for x in elts):
+            return None
+        return elts
 
     def step(st, env, conds, stores):
         if isinstance(st, (ast.Pass, ast.Assert, ast.Import, ast.ImportFrom, ast.Global, ast.Nonlocal)):
